@@ -1,5 +1,5 @@
 CONSTANTS Rates = ${Rates}  Bursts = ${Bursts}  Behaviours = ${Behaviours}
-          Sizes = {"max-1", "max", "max+1", "5max"}  LenModes = {"cl", "chunked"}  Routes = {"proxy", "provider", "provider_get", "anthropic"}
+          Sizes = {"max-1", "max", "max+1", "5max"}  LenModes = {"cl", "chunked"}  Routes = {"proxy", "provider", "provider_get", "anthropic", "anthropic_eq"}
           Kinds = ${Kinds}  Globals = ${Globals}
 INIT Init
 NEXT Next
